@@ -256,6 +256,27 @@ func replayFile(path string) int {
 		fmt.Fprintln(os.Stderr, err)
 		return 2
 	}
+	var generic struct {
+		Property string `json:"property"`
+		Kind     string `json:"kind"`
+	}
+	json.Unmarshal(b, &generic)
+	if generic.Kind == "axiom" || generic.Kind == "facts" || generic.Kind == "llsym" {
+		// these counterexamples are re-derived from the tree rather than replayed from recorded values:
+		// re-run the property's check and report its verdict
+		self, _ := os.Executable()
+		cmd := exec.Command(self, generic.Property, "--tier", "quick")
+		cmd.Stdout, cmd.Stderr = os.Stdout, os.Stderr
+		cmd.Env = append(os.Environ(), "VERIF_EVIDENCE_DIR="+filepath.Join(scratch(), "replay-evidence"))
+		if err := cmd.Run(); err != nil {
+			if ee, ok := err.(*exec.ExitError); ok {
+				return ee.ExitCode()
+			}
+			return 2
+		}
+		fmt.Println("replay did not reproduce the failure")
+		return 0
+	}
 	var doc replayDoc
 	if err := json.Unmarshal(b, &doc); err != nil {
 		fmt.Fprintln(os.Stderr, err)
